@@ -1154,6 +1154,69 @@ def _never_none(e, known: dict) -> bool:
     return False
 
 
+def thread_none_flags(stmts: list[ast.stmt]) -> list[ast.stmt]:
+    """if C: ..; v = <something>   else: ..; v = None          if C: ..; v = <something>; A
+       if v is not None: A  else: B                      ->    else: ..; v = None; B
+    a decision recorded in whether v is None and asked again straight afterwards is the decision itself (each arm of the second
+    test is moved to the end of the branch that makes it true; nothing is duplicated)"""
+    def ends(block):
+        if not block:
+            return False
+        s_ = block[-1]
+        if isinstance(s_, (ast.Return, ast.Raise, ast.Continue, ast.Break)):
+            return True
+        if isinstance(s_, ast.If):
+            return bool(s_.orelse) and ends(s_.body) and ends(s_.orelse)
+        return False
+
+    def state(block, v):
+        """'none' / 'some' for v where the block falls through, None if unknown"""
+        last = None
+        for x in block:
+            if isinstance(x, ast.Assign) and len(x.targets) == 1 and isinstance(x.targets[0], ast.Name) and x.targets[0].id == v:
+                last = x
+            elif v in _assigned_names([x]):
+                return None
+        if last is None:
+            return None
+        if isinstance(last.value, ast.Constant) and last.value.value is None:
+            return "none"
+        return "some" if _never_none(last.value, {}) else None
+
+    def block(b):
+        b = list(b)
+        for s_ in b:
+            for fld in ("body", "orelse", "finalbody"):
+                bb = getattr(s_, fld, None)
+                if isinstance(bb, list) and bb and isinstance(bb[0], ast.stmt) and not isinstance(s_, (ast.FunctionDef, ast.AsyncFunctionDef, ast.ClassDef)):
+                    setattr(s_, fld, block(bb))
+            if isinstance(s_, ast.Try):
+                for h in s_.handlers:
+                    h.body = block(h.body)
+        i = 0
+        while i + 1 < len(b):
+            s1, s2 = b[i], b[i + 1]
+            if isinstance(s1, ast.If) and s1.orelse and isinstance(s2, ast.If):
+                t, neg = s2.test, False
+                while isinstance(t, ast.UnaryOp) and isinstance(t.op, ast.Not):
+                    t, neg = t.operand, not neg
+                if isinstance(t, ast.Compare) and len(t.ops) == 1 and isinstance(t.ops[0], (ast.Is, ast.IsNot)) and isinstance(t.left, ast.Name) \
+                        and isinstance(t.comparators[0], ast.Constant) and t.comparators[0].value is None:
+                    v = t.left.id
+                    some_arm, none_arm = (s2.body, s2.orelse) if isinstance(t.ops[0], ast.IsNot) != neg else (s2.orelse, s2.body)
+                    sts = [None if ends(br) else state(br, v) for br in (s1.body, s1.orelse)]
+                    live = [(br, st) for br, st in zip((s1.body, s1.orelse), sts) if not ends(br)]
+                    if live and all(st is not None for _, st in live) and len({st for _, st in live}) == len(live):
+                        for br, st in live:
+                            br.extend(copy.deepcopy(x) for x in (some_arm if st == "some" else none_arm))
+                        del b[i + 1]
+                        b[i] = s1
+                        continue
+            i += 1
+        return b
+    return block(stmts)
+
+
 def fold_none_tests(stmts: list[ast.stmt]) -> list[ast.stmt]:
     """if x is not None: A else: B   with x a number / length / display  ->  A      (and the `is None` twin -> B)"""
     def block(b, known):
